@@ -385,6 +385,16 @@ Theorem width_special : forall cw inner w, balanced inner ->
 Proof. exact width_special_lemma. Qed.
 Print Assumptions width_special.
 
+(* the repaired behaviour (finding C03-F3, fix 7dc0a71): in an ORDINARY level-1 group -- one whose
+   first character is not a backslash -- every character counts at its own width, a backslash in
+   the middle included (it is not taken for a special character) *)
+Theorem width_ordinary_group_backslash : forall cw x inner, N.eqb x c_bslash = false ->
+  Forall (fun c => is_brace c = false) (x :: inner) ->
+  bibtex_width cw (c_lbrace :: x :: inner ++ [c_rbrace]) =
+  Ok (cw c_lbrace + fold_left (fun a c => a + cw c) (x :: inner) 0 + cw c_rbrace)%Z.
+Proof. exact width_ordinary_group_lemma. Qed.
+Print Assumptions width_ordinary_group_backslash.
+
 (* ---- the BST builtins: each wrapper is the utils function on the popped operands ---- *)
 Theorem bst_wrappers :
   (forall s start len, bst_substring s start len = Ok (bibtex_substring s start len)) /\
@@ -508,3 +518,8 @@ Example round3_example :
   find_closing_brace (s2l "a{b}c}d") = (s2l "a{b}c}", s2l "d") /\ find_closing_brace (s2l "a{b}c") = (s2l "a{b}c", []) /\
   bst_change_case (s2l "Ab") (s2l "Upper") = Ok (s2l "AB") /\ bst_change_case (s2l "Ab") (s2l "x") = PyErr E_BIBTEX (-1).
 Proof. vm_compute. auto 8. Qed.
+(* C03-F3 pinned: {a\b} with the real widths of { a \ b } (500 500 500 556 500) is 2556 *)
+Example width_backslash_example :
+  let cw := fun c => if N.eqb c 98 then 556%Z else 500%Z in
+  bibtex_width cw (s2l "{a\b}") = Ok 2556%Z /\ bibtex_width cw (s2l "{\ab}") = Ok (500 + (556 - 1000) + 500)%Z.
+Proof. vm_compute. auto. Qed.
